@@ -108,6 +108,60 @@ class C06(fw.Prop):
         lines, run = run_with_nonce_log(d["cfg"], d["ops"])
         return fw.Case(lines, run, "split", d, tags=(d.get("tag", "x"),))
 
+    def client_case(self, d):
+        def impl():
+            from dlms_cosem import cosem, enumerations as en, exceptions
+            from dlms_cosem.clients.dlms_client import DlmsClient
+            from dlms_cosem.connection import DlmsConnection
+            from dlms_cosem.protocol import xdlms
+            from harness import refcrypto
+            from harness.connlib import conf_obj, key_bytes
+            ek, ak = key_bytes(*EK), key_bytes(*AK)
+            ct, mt = b"CLIENT01", bytes.fromhex(MT)
+            wire = []
+
+            class IO:
+                """answers every request properly (ciphered under the meter's next counter), except that the `fail_at`-th write is
+                followed by a timeout"""
+                mic = 10
+
+                def send(self, data):
+                    wire.append(bytes(data))
+                    if len(wire) == d["fail_at"]:
+                        raise exceptions.CommunicationError("no answer")
+                    g = xdlms.GeneralGlobalCipher.from_bytes(bytes(data))
+                    plain = refcrypto.open_(g.security_control.to_bytes()[0], bytes(g.system_title), g.invocation_counter, ek, g.ciphered_text, ak)
+                    tag = plain[0]
+                    ans = {0xC0: b"\xc4\x01\xc1\x00\x09\x01\xaa", 0xC1: b"\xc5\x01\xc1\x00", 0xC3: b"\xc7\x01\xc1\x00\x00"}[tag]
+                    IO.mic += 1
+                    sc = 0x30
+                    return xdlms.GeneralGlobalCipher(mt, g.security_control, IO.mic, refcrypto.seal(sc, mt, IO.mic, ek, ans, ak)).to_bytes()
+            conn = DlmsConnection.with_pre_established_association(
+                conformance=conf_obj(0x1F0B2), max_pdu_size=500, global_encryption_key=ek, global_authentication_key=ak, client_system_title=ct,
+                meter_system_title=mt, client_invocation_counter=d["start"], meter_invocation_counter=0)
+            c = DlmsClient(client_logical_address=16, server_logical_address=1, io_interface=IO(), dlms_connection=conn)
+            attr_ = cosem.CosemAttribute(en.CosemInterface.REGISTER, cosem.Obis(1, 0, 1, 8, 0, 255), 2)
+            meth = cosem.CosemMethod(en.CosemInterface.REGISTER, cosem.Obis(1, 0, 1, 8, 0, 255), 1)
+            for _ in range(5):
+                try:
+                    if d["kind"] == "get":
+                        c.get(attr_)
+                    elif d["kind"] == "set":
+                        c.set(attr_, b"\x11\x05")
+                    else:
+                        c.action(meth, b"\x11\x05")
+                except fw._Timeout:
+                    raise
+                except Exception:  # noqa
+                    pass
+            carried = [xdlms.GeneralGlobalCipher.from_bytes(w).invocation_counter for w in wire if w[:1] == b"\xdb"]
+            plain_out = [w.hex()[:20] for w in wire if w[:1] != b"\xdb"]
+            if plain_out:
+                return "ok client !written-unciphered:" + plain_out[0]
+            want = [d["start"] + i for i in range(len(carried))]
+            return "ok client" + ("" if carried == want else f" !counters-on-the-wire:{carried}")
+        return fw.Case("echo client", impl, "prop", d, tags=("client-transport-failure",))
+
     def session_ops(self, rng, p, n, hls):
         ops = [["send", "aarq", 1], p.resp("aare", (0, 5 if hls else None))]
         if hls:
@@ -186,6 +240,22 @@ class C06(fw.Prop):
                        p.resp("aare", (0, None)), ["send", "getReq", 1], p.resp("getRespNormal"), ["send", "rlrq", 1], p.resp("rlre"),
                        ["send", "aarq", 4], p.resp("aare", (0, None)), ["send", "rlrq", 4], p.resp("rlre"), ["send", "aarq", 1]]
                 yield self.make_case({"cfg": cfg.to_json(), "ops": ops, "tag": "acse-object-sent-again"})
+        # a recorded AARE that rejects the association, delivered again on the next attempts: an APDU accepted once is never
+        # accepted again, whatever it said
+        for res in (1, 2):
+            for hls in (False, True):
+                cfg = cl.Cfg(ek=EK, ak=AK, auth=5 if hls else None, cic=rng.choice([3, 700]))
+                p = Path("hls", cfg)
+                p.mic = rng.choice([20, 5000])
+                rej = p.resp("aare", (res, None))
+                ops = [["send", "aarq", 1], rej, ["send", "aarq", 1], rej, ["send", "aarq", 1], rej, p.resp("aare", (res, None)), ["send", "aarq", 1], rej,
+                       p.resp("aare", (0, None)), ["send", "getReq", 1], rej, p.resp("getRespNormal")]
+                yield self.make_case({"cfg": cfg.to_json(), "ops": ops, "tag": "rejecting-aare-replayed"})
+        # a client whose transport fails after the request was written (lost answer): whatever the client does next, no counter
+        # is carried twice by what it writes
+        for fail_at in (1, 2, 3):
+            for op_kind in ("get", "set", "action"):
+                yield self.client_case({"start": rng.choice([0, 1000, 2 ** 32 - 50]), "fail_at": fail_at, "kind": op_kind})
         # a recorded genuine APDU replayed with bits of its (unauthenticated) envelope changed: security-control byte with the
         # key-set / compression bit, another system title - still a replay
         for bits in (0x40, 0x80, 0xC0):
